@@ -1,7 +1,7 @@
 (* C18 — Staging and deployment never write outside their target directory.  Property theorems only. *)
 From Coq Require Import String List Bool.
 Import ListNotations.
-Require Import V.Path.Model V.Path.Proofs V.Path.Archive V.Path.Deploy V.Path.PreLinks V.Path.CopyTree V.Path.Sequence.
+Require Import V.Path.Model V.Path.Proofs V.Path.Archive V.Path.Deploy V.Path.PreLinks V.Path.CopyTree V.Path.Sequence V.Path.Components.
 Open Scope string_scope.
 
 (* For the SPECIFIED check (every member, and every link target, stays in the destination after
@@ -179,6 +179,29 @@ Proof.
 Qed.
 Print Assumptions C18_sequence_stays_real.
 
+(* SEVERAL COMPONENTS staged by one process (round-7 seed C18_m11).  The components of a workflow are staged one after
+   the other by the same process, each into its own working directory, and they reference the same files — one archive
+   is extracted into many directories.  Every reference of every component is examined against the directory it is
+   staged into, nothing is carried over from an earlier call: for every list of components with real working
+   directories (any states, any references, the same archives in any of them, any order), every path a component
+   creates or writes is inside ITS directory ... *)
+Theorem C18_components_confined : forall (cs : list component),
+  forallb comp_ok cs = true ->
+  forall c, In c cs -> forall p, In p (seq_writes (stage_component c)) -> within (comp_dir c) p.
+Proof. exact components_confined. Qed.
+Print Assumptions C18_components_confined.
+
+(* ... and therefore nothing of it lands in the working directory of another component (directories that are not
+   nested): an archive member with an absolute name, or below a link, that is inside one component's directory is never
+   created by the staging of another.  That the archive is examined for EVERY directory is necessary:
+   C18_checked_once_refuted. *)
+Theorem C18_components_apart : forall (cs : list component),
+  forallb comp_ok cs = true ->
+  forall c c', In c cs -> In c' cs -> apart (comp_dir c) (comp_dir c') = true ->
+  forall p, In p (seq_writes (stage_component c)) -> ~ within (comp_dir c') p.
+Proof. exact components_apart. Qed.
+Print Assumptions C18_components_apart.
+
 (* non-vacuity: a benign archive (directories, a file, a relative symbolic link with "..", a hard
    link, an absolute name inside the destination) is accepted by the repaired check and extracted where
    expected; the hostile ones are refused; a nested manifest with a link entry is accepted. *)
@@ -251,5 +274,19 @@ Example C18_nonvacuous :
    stage_seq d [] true refs = ([(d ++ ["out.txt"], ELink ["p1"; "out.txt"])]%list, [d ++ ["out.txt"]]%list, [(0, true); (2, true)]) /\
    (* a dangling link found in the directory: nothing is copied on top of it; a file found there is replaced *)
    seq_codes (stage_seq d [(d ++ ["out.txt"], ELink ["p1"; "new.txt"]); (d ++ ["w"], EFile)]%list false
-                        [RCopyFile "/p2/out.txt"; RCopyFile "/p3/w"; RCopyDir "/p2/w" []]) = [(2, true); (0, true); (2, true)]).
+                        [RCopyFile "/p2/out.txt"; RCopyFile "/p3/w"; RCopyDir "/p2/w" []]) = [(2, true); (0, true); (2, true)]) /\
+  (* three components extract the SAME archive: into an empty directory (staged), into one where an earlier :link
+     reference left the link `shared` (refused, the link is kept, nothing else appears), into one that found a dangling
+     link there (refused); an archive with an absolute name inside the first directory: staged there, refused elsewhere *)
+  (let bundle := RExtract [("summary.txt", KFile); ("shared/cache.dat", KFile)] in
+   let absolute := RExtract [("/t/work/state.txt", KFile)] in
+   let e := ["t"; "wb"] in let f := ["t"; "wc"] in
+   let cs := [(d, [], true, [bundle; absolute]); (e, [], true, [RLink "/input/shared"; bundle]);
+              (f, [(f ++ ["shared"], ELink ["nowhere"])]%list, false, [bundle; absolute])] in
+   forallb comp_ok cs = true /\ apart d e = true /\ apart e f = true /\ apart d ["t"; "work"; "sub"] = false /\
+   stage_components cs =
+     [([(d ++ ["summary.txt"], EFile); (d ++ ["shared"], EDir); (d ++ ["shared"; "cache.dat"], EFile); (d ++ ["state.txt"], EFile)]%list,
+       [d ++ ["summary.txt"]; d ++ ["shared"; "cache.dat"]; d ++ ["state.txt"]]%list, [(0, true); (0, true)]);
+      ([(e ++ ["shared"], ELink ["input"; "shared"])]%list, [e ++ ["shared"]]%list, [(0, true); (1, true)]);
+      ([(f ++ ["shared"], ELink ["nowhere"])]%list, [], [(1, true); (1, true)])]).
 Proof. vm_compute. repeat split; reflexivity. Qed.
